@@ -104,14 +104,30 @@ def check_scopes(recs, scopes, viol, info, where):
     done = [r for r in recs if r["start"] is not None]
     done.sort(key=lambda r: r["seq"])
     by_scope = []
+    ambiguous = set()
+    maybe = set()  # I/Os on streams of some limited scope (whether or not the I/O falls into its time span)
     for sc in scopes:
         if not sc["limit"] or sc["limit"] <= 0:
             continue
         need = sc.get("needs_throttle")
-        ios = [r for r in done if r["dir"] == sc["dir"] and id(r["stream"]) in sc["streams"] and (need is None or need in r.get("names_end", ()))]
+        cand = [r for r in done if r["dir"] == sc["dir"] and id(r["stream"]) in sc["streams"]]
+        for r in cand:
+            maybe.add(id(r))
+        span = sc.get("span") or {}
+        ios = [r for r in cand if (need is None or need in r.get("names_end", ())) and (id(r["stream"]) not in span or (span[id(r["stream"])][0] <= r["req"] and r["start"] <= span[id(r["stream"])][1]))]
+        amb = []
+        if span:
+            inn = set(id(r) for r in ios)
+            for r in cand:
+                if id(r) not in inn and id(r["stream"]) in span:
+                    ambiguous.add(id(r))  # around the second login: either user's limit may still / already apply
+                    amb.append(r)
+        sc["_amb"] = amb
         if not ios:
             continue
-        t0 = ios[0]["start"]
+        # the limit's clock starts with the first I/O booked on it; around a second login that may
+        # be an I/O of the ambiguous window (earlier origin = more credit = the sound choice)
+        t0 = min([ios[0]["start"]] + [r["start"] for r in amb])
         ends = [r["end"] for r in ios if r["end"] is not None]
         t0p = min(ends) if ends else t0
         maxblk = {}
@@ -123,26 +139,36 @@ def check_scopes(recs, scopes, viol, info, where):
     for (sc, ios, t0, t0p, slack) in by_scope:
         L = sc["limit"]
         cum = 0
+        amb = sorted(sc.get("_amb") or (), key=lambda r: r["seq"])
+        ai = 0
+        extra = 0  # bytes the server may legitimately have booked on this limit around a second login
         for r in ios:
+            while ai < len(amb) and amb[ai]["seq"] < r["seq"]:
+                extra += amb[ai]["n"]
+                ai += 1
             tk = r["start"]
             rho = 0.5 * (int((tk - t0) / 10.0) + 1)
             info["ios_checked"] = info.get("ios_checked", 0) + 1
             if cum > L * (tk - t0) + slack + rho + EPS * L:
                 viol.append({"clause": "rate-exceeded", "subject": f"{where}:{sc['name']}", "detail": f"scope {sc['name']} ({sc['dir']}, limit {L} B/s, {len(sc['streams'])} streams): {cum} bytes had been moved at t0+{tk - t0:.6f}s, bound {L * (tk - t0) + slack + rho:.1f} (= L*t + {slack} in flight + {rho} rounding)"})
+                for r2 in ios:
+                    ambiguous.add(id(r2))  # this limit is broken: no statement about delays under it
                 break
-            applicable.setdefault(id(r), []).append((t0p + cum / L + rho / L, sc["name"]))
+            applicable.setdefault(id(r), []).append((t0p + (cum + extra) / L + rho / L, sc["name"]))
             cum += r["n"]
     for r in done:
         lims = applicable.get(id(r))
         if not lims:
-            if r["thr"]:
-                continue  # limited by a throttle outside the declared scopes (not expected)
+            if id(r) in maybe:
+                continue  # on a stream of a limited scope, outside its span (login in progress, scope check cut short)
             if r["start"] - r["req"] > EPS:
                 viol.append({"clause": "delay-without-limit", "subject": f"{where}:{r['dir']}", "detail": f"a {r['dir']} of {r['n']} bytes started {r['start'] - r['req']:.6f}s after it was requested although no limit applies to that direction"})
             else:
                 info["unlimited_ios"] = info.get("unlimited_ios", 0) + 1
             continue
         allowed = max(t for t, _ in lims)
+        if id(r) in ambiguous:
+            continue
         if r["start"] > max(r["req"], allowed) + EPS:
             viol.append({"clause": "over-delayed", "subject": f"{where}:{'+'.join(sorted(n for _, n in lims))}", "detail": f"a {r['dir']} of {r['n']} bytes requested at {r['req']:.6f} started at {r['start']:.6f}; the tightest applicable limit allows it at {allowed:.6f} (scopes {lims})"})
         if r["start"] - r["req"] > EPS:
@@ -270,7 +296,11 @@ def gen_e2e_case(seed):
         ops = []
         for _ in range(rnd.randint(1, 3)):
             ops.append([rnd.choice(["up", "down"]), rnd.choice([B // 2, B, 3 * B + 1, 10 * B, 25 * B])])
-        sessions.append({"user": rnd.choice(["ua", "ua", "ub"]), "start": rnd.choice([0.0, 0.0, 0.5, 3.0, 11.0, 30.0]), "ops": ops, "client_limits": [rnd.choice([None, None, 100]), rnd.choice([None, None, 100])]})
+        sess = {"user": rnd.choice(["ua", "ua", "ub"]), "start": rnd.choice([0.0, 0.0, 0.5, 3.0, 11.0, 30.0]), "ops": ops, "client_limits": [rnd.choice([None, None, 100]), rnd.choice([None, None, 100])]}
+        if rnd.random() < 0.3:
+            # the session logs in again as the other user, with its passive listener already open
+            sess["relogin"] = {"user": "ub" if sess["user"] == "ua" else "ua", "pasv_first": rnd.random() < 0.8, "op_first": rnd.random() < 0.4}
+        sessions.append(sess)
     return {"mode": "e2e", "seed": seed, "B": B, "server": srv, "users": users, "sessions": sessions}
 
 
@@ -299,6 +329,16 @@ def run_e2e_case(case):
                 clients.append((i, c))
                 await c.connect("127.0.0.1", 2121)
                 await c.login(s["user"], "x")
+                rl = s.get("relogin")
+                if rl:
+                    if rl["pasv_first"]:
+                        await c.command("EPSV", "229")
+                    if rl["op_first"]:
+                        async with c.download_stream("src.bin") as st:
+                            await st.read(B)
+                    t1 = world.loop.time()
+                    await c.login(rl["user"], "x")
+                    info.setdefault("relogin", {})[f"s{i}"] = (t1, world.loop.time())
                 for (kind, n) in s["ops"]:
                     if kind == "up":
                         async with c.upload_stream(f"up_{i}.bin") as st:
@@ -350,16 +390,27 @@ def run_e2e_case(case):
             scopes.append({"name": f"server_global.{d}", "dir": d, "limit": case["server"].get(f"{d}_speed_limit"), "streams": allsrv})
             for lab, ss in srv_streams.items():
                 scopes.append({"name": f"server_per_connection.{d}.{lab}", "dir": d, "limit": case["server"].get(f"{d}_speed_limit_per_connection"), "streams": ss})
+            relog = info.get("relogin", {})
             for u in case["users"]:
-                labs = [f"s{i}" for i, s in enumerate(case["sessions"]) if s["user"] == u["login"]]
+                labs = [f"s{i}" for i, s in enumerate(case["sessions"]) if s["user"] == u["login"] or (s.get("relogin") or {}).get("user") == u["login"]]
                 us = set().union(*[srv_streams.get(l, set()) for l in labs]) if labs else set()
+                # a session that logs in again belongs to its first user until the second USER is
+                # sent and to the second one from the completion of that login on - whichever
+                # throttle objects the server happens to have attached to its streams
+                span = {}
+                for i, s_ in enumerate(case["sessions"]):
+                    l = f"s{i}"
+                    if s_.get("relogin") and l in labs:
+                        t1, t2 = relog.get(l, (float("inf"), float("inf")))
+                        for sid in srv_streams.get(l, ()):
+                            span[sid] = (float("-inf"), t1) if s_["user"] == u["login"] else (t2, float("inf"))
                 # before USER the control stream carries no user throttle: the greeting / USER
                 # command I/Os are in scope only formally (a handful of bytes); they can only make
                 # the bound looser, never tighter for the upper bound, but they could shift t0:
                 # restrict user scopes to I/Os after the login reply of each session (below)
-                scopes.append({"name": f"user_global.{d}.{u['login']}", "dir": d, "limit": u.get(f"{d}_speed_limit"), "streams": us, "after_login": True})
+                scopes.append({"name": f"user_global.{d}.{u['login']}", "dir": d, "limit": u.get(f"{d}_speed_limit"), "streams": us, "after_login": True, "span": span})
                 for l in labs:
-                    scopes.append({"name": f"user_per_connection.{d}.{l}", "dir": d, "limit": u.get(f"{d}_speed_limit_per_connection"), "streams": srv_streams.get(l, set()), "after_login": True})
+                    scopes.append({"name": f"user_per_connection.{d}.{l}.{u['login']}", "dir": d, "limit": u.get(f"{d}_speed_limit_per_connection"), "streams": srv_streams.get(l, set()), "after_login": True, "span": span})
             for i, s in enumerate(case["sessions"]):
                 lim = s["client_limits"][0 if d == "read" else 1]
                 scopes.append({"name": f"client.{d}.s{i}", "dir": d, "limit": lim, "streams": cli_streams.get(f"s{i}", set())})
